@@ -122,7 +122,9 @@ impl VM {
 		let vmi = (ir as &dyn Any)
 			.downcast_ref::<VMImportResolver>()
 			.expect("valid resolver ty");
-		let vmi = &mut *vmi.inner.borrow_mut();
+		let mut vmi = vmi.inner.borrow_mut();
+		// Resolver itself should be downcasted, not the Rc
+		let vmi = Rc::get_mut(&mut *vmi).expect("import resolver is not shared");
 		(vmi as &mut dyn Any)
 			.downcast_mut::<FileImportResolver>()
 			.expect("jpaths are not compatible with callback imports!")
